@@ -20,10 +20,12 @@ THEOREMS = [
     'Tbox.C17.C17_timeout_leaves_child_running_counterexample', 'Tbox.C17.C17_timeout_repaired',
     'Tbox.C17.C17_stale_block_counterexample', 'Tbox.C17.C17_stale_block_repaired',
     'Tbox.C17.C17_repeat_zero_means_forever', 'Tbox.C17.C17_sequence_header_literal_differs',
+    # ActionExecutor
+    'Tbox.C17.C17_exec_one_at_a_time', 'Tbox.C17.C17_exec_heads_only', 'Tbox.C17.Exec.sched_inv', 'Tbox.C17.Exec.xstep_inv',
     # the inductive steps themselves
     'Tbox.C17.bstep_inv', 'Tbox.C17.step_wf', 'Tbox.C17.reachable_wf', 'Tbox.C17.seq_drive_aux',
 ]
-FLOW = ['modules/flow/action.cpp'] + ['modules/flow/actions/%s_action.cpp' % n for n in (
+FLOW = ['modules/flow/action.cpp', 'modules/flow/action_executor.cpp'] + ['modules/flow/actions/%s_action.cpp' % n for n in (
     'assemble', 'composite', 'dummy', 'function', 'if_else', 'if_then', 'loop', 'loop_if', 'parallel', 'repeat',
     'sequence', 'sleep', 'switch', 'wrapper')]
 SOURCES = FLOW + ['modules/util/variables.cpp', 'modules/util/string.cpp', 'modules/util/json.cpp'] + vlib.EVENT_SOURCES + vlib.BASE_SOURCES
@@ -44,7 +46,7 @@ ASSUMPTIONS = [
     'control calls (start/pause/resume/stop/reset) are made on the root only, from the loop thread',
     'a DummyAction leaf is completed / blocked by its owner only while it is running',
     'no two armed timers share a deadline (durations are 100k + a residue unique per node, clock steps are multiples of 100 ms)',
-    'ActionExecutor (action_executor.cpp) is not covered; destruction is exercised only between cases',
+    'ActionExecutor: its actions are leaves (dummy / function / pre-stopped); callbacks do not call back into the executor; destruction is exercised only between cases',
     'run ids do not wrap (2^63 deferred tasks)',
 ]
 RULE = ('random action trees (depth <= 4, <= 40 nodes, all 10 composites and all their modes, leaves Function succ/fail(+case tag), Sleep, Dummy, '
@@ -207,10 +209,36 @@ def gen(rng, tier):
                     for b in pair:
                         yield gen_placement(tree, {i: a, j: b}, L)
     n = 1500 if quick else 12000
+    # ActionExecutor
+    yield ['xcancelcur', 'xapp D 3', 'xapp Q 1', 'xapp D 1', 'tree Fs', 'do start', 'xemit 0 s', 'xcancel 0', 'xpass', 'xapp D 1']
+    yield ['xapp D 2', 'xcancelcur', 'xapp D 0', 'xemit 2 s', 'xpass']
+    yield ['xapp D 1', 'xcancel 1', 'xcancelcur', 'xapp D 1', 'xemit 2 f']
+    yield ['xapp D 2', 'xapp D 2', 'xapp D 0', 'xapp Fs 1', 'xemit 3 s', 'xemit 1 s', 'xemit 2 s', 'xpass']
+    yield ['xapp D 1', 'xapp D 1', 'xcancelall', 'xpass', 'xapp D 1', 'xpass']
+    for _ in range(n // 5):
+        yield gen_exec(rng, rng.choice([4, 8, 16, 30]))
     for _ in range(n // 3):
         yield gen_plain(rng)
     for _ in range(n):
         yield gen_random(rng, rng.choice([6, 12, 25]))
+
+
+def gen_exec(rng, nops):
+    """ActionExecutor: appends with priorities, completion of the running action, cancels"""
+    ops = []
+    n = 0
+    for _ in range(nops):
+        r = rng.random()
+        if r < 0.40 or n == 0:
+            ops.append('xapp %s %d' % (rng.choice(['D', 'D', 'D', 'Fs', 'Ff', 'X']), rng.choice([0, 1, 1, 2])))
+            n += 1
+        elif r < 0.65: ops.append('xemit %d %s' % (rng.randrange(1, n + 2), rng.choice('sf')))
+        elif r < 0.78: ops.append('xcancel %d' % rng.randrange(1, n + 2))
+        elif r < 0.88: ops.append('xcancelcur')
+        elif r < 0.92: ops.append('xcancelall')
+        else: ops.append('xpass')
+    ops += ['xpass', 'xpass']
+    return ops
 
 
 def nontrivial(ops, model_lines):
@@ -219,6 +247,8 @@ def nontrivial(ops, model_lines):
         if l.startswith('B '):
             tags.update(l[2:].split())
     if tags & {'held-back', 'held-back-par', 'replay-queued', 'tmo-node-failed', 'root-blk'}:
+        return 1
+    if 'x-xapp' in tags and sum(1 for l in model_lines if l.startswith('P e xfinished')) >= 2:
         return 1
     m = re.search(r'P tree n=(\d+)', '\n'.join(model_lines))
     if m and int(m.group(1)) >= 3 and 'root-fin' in tags:
